@@ -32,7 +32,7 @@ def reference(dfa, dfb, k, pixel, tie_rel=1e-9):
     pixel = float(pixel)
     shared = sorted(set(a["tomo"].tolist()) & set(b["tomo"].tolist()))
     res = {"queries": {}, "order": [], "ties": [], "shared": shared, "n_rows": 0, "scale": 1.0,
-           "avail": {}, "n_a": a["n"], "n_b": b["n"]}
+           "avail": {}, "n_a": a["n"], "n_b": b["n"], "min_rel_gap": float("inf")}
     in_shared = np.isin(a["tomo"], shared)
     ids = a["sid"][in_shared]
     res["ids_unique"] = bool(len(set(ids.tolist())) == len(ids))
@@ -54,6 +54,8 @@ def reference(dfa, dfb, k, pixel, tie_rel=1e-9):
         for q in range(len(ia)):
             d = Ds[q, :upto]
             gaps = d[1:] - d[:-1]
+            if len(gaps):
+                res["min_rel_gap"] = min(res["min_rel_gap"], float((gaps / np.maximum(1.0, d[1:])).min()))
             bad = np.flatnonzero(gaps <= tie_rel * np.maximum(1.0, d[1:]))
             for r in bad:
                 res["ties"].append((float(a["sid"][ia[q]]), int(r), float(d[r]), float(d[r + 1])))
